@@ -666,3 +666,258 @@ func runTypeMismatchNeedsWhollyKnown(rr *RuleRun) {
 		})
 	}
 }
+
+// ---------------------------------------------------------------------------
+// C13.generic-fold-visits-every-operand
+
+func init() {
+	register(&Rule{
+		ID: "C13.generic-fold-visits-every-operand", Prop: "C13", Also: []string{"C11", "C12", "C03"}, Floor: 1, Controls: 0,
+		Doc: "a fold whose operation is a parameter applies it to every operand: in a loop that accumulates with acc = f(acc, x) where f is a function-typed parameter or captured variable — so the code cannot know f's algebra — no break, continue or successful return is taken under a condition on the accumulator (an 'already empty, nothing left to do' shortcut is right for intersection and subtraction and wrong for union and symmetric difference, which the same helper also serves)",
+		Run: runGenericFoldVisitsEveryOperand,
+	})
+}
+
+func runGenericFoldVisitsEveryOperand(rr *RuleRun) {
+	c := rr.Ctx
+	eachFuncBody(c, allPkgs, func(pkg string, fd *ast.FuncDecl, body *ast.BlockStmt) {
+		if body == nil {
+			return
+		}
+		info := c.Info(pkg)
+		inspectNoLit(body, func(n ast.Node) bool {
+			var loopBody *ast.BlockStmt
+			switch l := n.(type) {
+			case *ast.RangeStmt:
+				loopBody = l.Body
+			case *ast.ForStmt:
+				loopBody = l.Body
+			default:
+				return true
+			}
+			// acc = f(acc, …) with f a function-typed variable
+			var acc types.Object
+			var fname string
+			for _, st := range loopBody.List {
+				as, ok := st.(*ast.AssignStmt)
+				if !ok || len(as.Lhs) != 1 || len(as.Rhs) != 1 || as.Tok != token.ASSIGN {
+					continue
+				}
+				call, ok := ast.Unparen(as.Rhs[0]).(*ast.CallExpr)
+				if !ok || len(call.Args) < 2 {
+					continue
+				}
+				fid, ok := ast.Unparen(call.Fun).(*ast.Ident)
+				if !ok {
+					continue
+				}
+				fv, ok := info.Uses[fid].(*types.Var)
+				if !ok {
+					continue
+				}
+				if _, isSig := fv.Type().Underlying().(*types.Signature); !isSig {
+					continue
+				}
+				lo := objOf(info, as.Lhs[0])
+				if lo != nil && objOf(info, call.Args[0]) == lo {
+					acc, fname = lo, fid.Name
+				}
+			}
+			if acc == nil {
+				return true
+			}
+			key := fmt.Sprintf("%s.%s/fold %s = %s(%s, …)", pkg, declName(fd), acc.Name(), fname, acc.Name())
+			bad := false
+			var walk func(st ast.Stmt, conds []ast.Expr)
+			check := func(at ast.Node, what string, conds []ast.Expr) {
+				for _, cd := range conds {
+					if mentionsObj(info, cd, acc) && !bad {
+						bad = true
+						rr.Violation(key, at.Pos(), fmt.Sprintf("the fold %s under the condition '%s', which looks at the accumulator: the operation %s is a parameter, so nothing entitles the loop to decide from the accumulated value that the remaining operands cannot change the result — operands are skipped for the operations that could still add members", what, trunc(exprStr(cd), 50), fname))
+					}
+				}
+			}
+			walk = func(st ast.Stmt, conds []ast.Expr) {
+				switch x := st.(type) {
+				case *ast.BlockStmt:
+					for _, s := range x.List {
+						walk(s, conds)
+					}
+				case *ast.IfStmt:
+					walk(x.Body, append(append([]ast.Expr{}, conds...), x.Cond))
+					if x.Else != nil {
+						walk(x.Else, append(append([]ast.Expr{}, conds...), x.Cond))
+					}
+				case *ast.SwitchStmt:
+					for _, cl := range x.Body.List {
+						cc := cl.(*ast.CaseClause)
+						cs := append([]ast.Expr{}, conds...)
+						if x.Tag != nil {
+							cs = append(cs, x.Tag)
+						}
+						cs = append(cs, cc.List...)
+						for _, s := range cc.Body {
+							walk(s, cs)
+						}
+					}
+				case *ast.BranchStmt:
+					if x.Tok == token.BREAK || x.Tok == token.CONTINUE {
+						check(x, "is cut short ("+x.Tok.String()+")", conds)
+					}
+				case *ast.ReturnStmt:
+					if n := len(x.Results); n > 0 {
+						last := x.Results[n-1]
+						if t := info.TypeOf(last); t != nil && isErrorType(t) && !isNilIdent(info, last) {
+							return
+						}
+					}
+					check(x, "returns early", conds)
+				}
+			}
+			walk(loopBody, nil)
+			if !bad {
+				rr.OK(key, n.Pos(), "no exit of the loop depends on the accumulated value")
+			}
+			return true
+		})
+	})
+}
+
+// ---------------------------------------------------------------------------
+// C20.derived-slice-is-fresh
+
+func init() {
+	register(&Rule{
+		ID: "C20.derived-slice-is-fresh", Prop: "C20", Also: []string{"C19"}, Floor: 2, Controls: 0,
+		Doc: "an exported function or method that derives a longer value of a named slice type of the module (cty.Path) from one it was given does not return append(given, …): the result of append shares the given slice's backing array whenever its capacity allows, so two values derived from the same base (base.Index(0), base.Index(1)) are one array and the second derivation rewrites the first — the derived slice is made fresh (make + copy) or the base's capacity is clipped (given[:len:len])",
+		Run: runDerivedSliceIsFresh,
+	})
+}
+
+func runDerivedSliceIsFresh(rr *RuleRun) {
+	c := rr.Ctx
+	for _, pkg := range []string{"cty", "cty/convert", "cty/function", "cty/set"} {
+		info := c.Info(pkg)
+		for _, fd := range c.SortedDecls(pkg) {
+			if fd.Body == nil || !fd.Name.IsExported() {
+				continue
+			}
+			// receiver / parameters of a named slice type of this module
+			given := map[types.Object]bool{}
+			add := func(id *ast.Ident) {
+				o := info.Defs[id]
+				if o == nil {
+					return
+				}
+				n, ok := o.Type().(*types.Named)
+				if !ok || n.Obj().Pkg() == nil || !strings.HasPrefix(n.Obj().Pkg().Path(), modPath) {
+					return
+				}
+				if _, isSlice := n.Underlying().(*types.Slice); isSlice {
+					given[o] = true
+				}
+			}
+			if fd.Recv != nil {
+				for _, f := range fd.Recv.List {
+					for _, nm := range f.Names {
+						add(nm)
+					}
+				}
+			}
+			for _, f := range fd.Type.Params.List {
+				for _, nm := range f.Names {
+					add(nm)
+				}
+			}
+			if len(given) == 0 {
+				continue
+			}
+			key := pkg + "." + declName(fd)
+			bad := false
+			nret := 0
+			inspectNoLit(fd.Body, func(n ast.Node) bool {
+				ret, ok := n.(*ast.ReturnStmt)
+				if !ok {
+					return true
+				}
+				for _, r := range ret.Results {
+					nret++
+					call, ok := ast.Unparen(r).(*ast.CallExpr)
+					if !ok || !isBuiltin(info, call, "append") || len(call.Args) < 2 {
+						continue
+					}
+					base := ast.Unparen(call.Args[0])
+					if sl, ok := base.(*ast.SliceExpr); ok && sl.Slice3 {
+						continue // capacity clipped
+					}
+					if o := objOf(info, base); o != nil && given[o] && !bad {
+						bad = true
+						rr.Violation(key, ret.Pos(), fmt.Sprintf("%s returns append(%s, …) on the slice it was given: whenever %s has spare capacity the result shares its backing array, so a second value derived from the same %s overwrites the element the first derivation added — values that were handed out change afterwards", declName(fd), o.Name(), o.Name(), o.Name()))
+					}
+				}
+				return true
+			})
+			if !bad && nret > 0 {
+				rr.OKTrivial(key, fd.Pos(), "no result is an append onto a given slice")
+			}
+		}
+	}
+}
+
+// ---------------------------------------------------------------------------
+// C17.module-error-not-discarded
+
+func init() {
+	register(&Rule{
+		ID: "C17.module-error-not-discarded", Prop: "C17", Also: []string{"C15", "C16", "C08", "C09", "C11", "C18", "C19", "C04", "C13", "C14"}, Floor: 3, Controls: 0,
+		Doc: "no call of a function of this module that returns an error is written as a bare statement: the error of a nested encoder, decoder, conversion or walk is looked at (assigned, returned, tested) — a discarded error lets the caller report success with a truncated or partial result; the three call sites whose callee cannot fail for the arguments given are tabled with the reason",
+		Run: runModuleErrorNotDiscarded,
+	})
+}
+
+var discardedErrorOK = map[string]string{
+	"cty.Value.ContainsMarked→cty.Walk":                    "the callback given here returns a nil error on every path, and Walk returns only what the callback returns",
+	"cty/msgpack.marshalUnknownValue→cty/msgpack.marshal": "encodes a [number, bool] tuple of a known finite bound into an in-memory buffer: neither kind has a failing branch in marshal",
+}
+
+func runModuleErrorNotDiscarded(rr *RuleRun) {
+	c := rr.Ctx
+	seenOK := map[string]bool{}
+	eachFuncBody(c, allPkgs, func(pkg string, fd *ast.FuncDecl, body *ast.BlockStmt) {
+		if body == nil {
+			return
+		}
+		info := c.Info(pkg)
+		inspectNoLit(body, func(n ast.Node) bool {
+			es, ok := n.(*ast.ExprStmt)
+			if !ok {
+				return true
+			}
+			call, ok := es.X.(*ast.CallExpr)
+			if !ok {
+				return true
+			}
+			f := callee(info, call)
+			if f == nil || f.Pkg() == nil || !strings.HasPrefix(f.Pkg().Path(), modPath) {
+				return true
+			}
+			sig, ok := f.Type().(*types.Signature)
+			if !ok || sig.Results().Len() == 0 || !isErrorType(sig.Results().At(sig.Results().Len()-1).Type()) {
+				return true
+			}
+			k := fmt.Sprintf("%s.%s→%s", pkg, declName(fd), funcKey(f))
+			if why, ok := discardedErrorOK[k]; ok {
+				seenOK[k] = true
+				rr.OKTrivial(k, call.Pos(), "tabled: "+why)
+				return true
+			}
+			rr.Violation(k, call.Pos(), fmt.Sprintf("the error returned by %s is discarded (the call is a bare statement): if the nested step fails, this function goes on and reports success with whatever was produced so far — a truncated encoding, a partial result", funcKey(f)))
+			return true
+		})
+	})
+	for k := range discardedErrorOK {
+		if !seenOK[k] {
+			rr.Info("stale exemption "+k, token.NoPos, "the tabled call site no longer exists")
+		}
+	}
+}
